@@ -317,7 +317,11 @@ class ExcelModel:
     def complete(self, stack=None):
         done = set(self.cells)
         if stack is None:
-            stack = {k for k in self.dsp.data_nodes if k not in self.references}
+            pred, dfl = self.dsp.dmap.pred, self.dsp.default_values
+            stack = {  # Nodes that nothing defines yet.
+                k for k in self.dsp.data_nodes
+                if k not in self.references and not pred[k] and k not in dfl
+            }
             stack = stack.difference(done)
         stack = sorted(stack)
         sheet_limits = {}
